@@ -15,7 +15,7 @@ ANCHORS = [("ciscoconfparse2/ccp_abc.py", "BaseCfgLine." + m) for m in
           [("ciscoconfparse2/ciscoconfparse2.py", "ConfigList." + m) for m in ("insert", "append", "pop", "remove", "insert_before", "insert_after")]
 RULE = ("histories of 1..6 operations (list insert/append/pop, list insert_before/after by regex, object insert_before/after, delete, replace_text, re_sub, append_to_family "
         "with explicit and automatic indent) on configs with duplicate texts, prefix texts (Eth1/Eth10), regex metacharacters, braces, blank/comment lines; every target index; "
-        "auto_commit on, and off with an explicit commit after each edit; syntax ios and nxos (indent width 1 and 2). After EVERY step parse.get_text() is compared with the model "
+        "auto_commit on, off with an explicit commit after each edit, and off with NO commit between edits for the operations that do not address lines by stored line number (all but delete / append_to_family); syntax ios and nxos (indent width 1 and 2). After EVERY step parse.get_text() is compared with the model "
         "(the list operation of the property); for append_to_family the observed insertion index must lie inside the family and no existing line may change parent "
         "(evaluated with the constructor model). exhaustive: every single operation x every target on every config of <= 3 lines over a 6-line alphabet. "
         "non-trivial = the target text occurs more than once or is a prefix/regex-match of another line, or the op is delete/append_to_family on a parent; distinct by (op kind, config).")
@@ -59,6 +59,15 @@ def gen(rng, tier, escalate):
     for t in range(nrand):
         lines, ops = editgen.gen_history(rng, 10, 6)
         cases.append({"syntax": rng.choice(["ios", "nxos", "ios", "asa"]), "ibl": False, "delims": ["!"], "ac": rng.random() < 0.6, "lines": lines, "ops": ops, "kind": "rnd"})
+    # uncommitted sequences (auto_commit off, NO commit in between) of the operations that do not address lines
+    # by their stored line number: each must still have the text effect of its list operation
+    safe = ["insert", "append", "pop", "lins_before", "lins_after", "oins_before", "oins_after", "replace_text", "re_sub"]
+    for t in range(nrand // 2):
+        lines, ops = editgen.gen_history(rng, 8, 5)
+        ops = [o for o in ops if o["k"] in safe]
+        if len(ops) < 2:
+            continue
+        cases.append({"syntax": rng.choice(["ios", "nxos"]), "ibl": False, "delims": ["!"], "ac": False, "nocommit": True, "lines": lines, "ops": ops, "kind": "dirty"})
     return cases
 
 
